@@ -75,6 +75,20 @@ CLAIMED['C17'] = dict(
    note=NOTE + "; the recompute code itself is uninterpreted (a change there affects derived and fresh states alike); "
         "'behaves identically' follows from equal tables + the reader scan, stated not mechanised")
 
+CLAIMED['C04'] = dict(
+   text="Unbounded proof over abstract rules (a dictionary rule is an unknown map, a regular expression an unknown "
+        "matcher, a callable an unknown function) that each _apply_rule_* implements 'if the rule matches at p.pos append "
+        "protect(replacement) and advance by the consumed length, else leave the state untouched', that the rule's own "
+        "protection takes precedence, that the five protection schemes and the unknown-character policies equal their "
+        "documented definitions, that one iteration of the main loop performs exactly one documented step (ASCII skip / "
+        "first matching rule in order / printable ASCII copied / policy) and advances, that __init__ compiles rule i to an "
+        "application of rule i, that the partial encoder copies one token through and raises nothing, and that the cached "
+        "helper encodes with an encoder carrying exactly the requested options. result == ENC(NFC(s)) and the "
+        "concatenation homomorphism are the induction over iterations: stated, not mechanised.",
+   ref="DESIGN.md section 5, C04",
+   note=NOTE + "; unicodedata.normalize is an arbitrary string function; callable/regex rules are assumed to consume >= 1 "
+        "character; get_builtin_conversion_rules and the rule tables are not covered here (see C13 when claimed)")
+
 NA = {
 }
 DEFAULT_NA = "check not built yet (work in progress; see DESIGN.md section 5 for the planned contracts)"
